@@ -103,6 +103,7 @@ zpos = z3.Function('zpos', ISeq, Int)              # a position of a zero litera
 mpos = z3.Function('mpos', ISeq, Int)              # a position of a literal of maximal absolute value (non-empty list)
 PairSet = z3.ArraySort(Int, Int, Bool)
 card2 = z3.Function('card2', PairSet, Int)           # cardinality of a finite set of pairs
+cvar = z3.Function('cvar', Int, Int, Int, Int)         # combinations group (pairs): the variable of the pair {u, v}, u < v
 mrow = z3.Function('mrow', Int, Int, Int, ISeq)        # (group, u, m): the variables p[u,1..m] of a unary mapping, in order
 mcol = z3.Function('mcol', Int, Int, Int, ISeq)        # (group, v, n): the variables p[1..n,v], in order
 IArr = z3.ArraySort(Int, Int)
